@@ -53,37 +53,29 @@ Proof.
   exists [], sX, pw_zero, (env_of [(sA, 0%Q); (sX, 5%Q)]). repeat split; vm_compute; reflexivity.
 Qed.
 
-(* And(A > 0, B > 0, C > 0): only the first two arguments are printed ('A.GT.0.AND.B.GT.0'); at
-   A = B = 1, C = -1 the condition is false, the printed text is true. *)
+(* ---- regression examples of repaired defects (formerly cond_refuted_binary, cond_refuted_prec,
+   print_refuted_fn2, print_refuted_invfn) ---------------------------------------------------------- *)
 Definition gt0 (s : id) : scond := SRel OGt (Sym s) (Num 0).
-Theorem cond_refuted_binary :
-  exists (c : scond) (c' : cond) (r : env),
-    g_binary c = false /\ g_prec c = true /\ g_nobool c = true /\ printed_cond c = Some c' /\
-    evalc r std_fi (sem c) = Some false /\ evalc r std_fi c' = Some true.
-Proof.
-  exists (SAnd (gt0 sA) (gt0 sB) (SCons (gt0 sC) SNil)),
-         (CAnd (CRel OGt (Sym sA) (Num 0)) (CRel OGt (Sym sB) (Num 0))),
-         (env_of [(sA, 1%Q); (sB, 1%Q); (sC, (-1)%Q)]).
-  repeat split; vm_compute; reflexivity.
-Qed.
 
-(* And(C > 0, Or(A > 0, B > 0)) is printed 'C.GT.0.AND.A.GT.0.OR.B.GT.0', which reads
-   (C > 0 and A > 0) or B > 0: at C = -1, B = 1 the condition is false, the printed text true. *)
-Theorem cond_refuted_prec :
-  exists (c : scond) (c' : cond) (r : env),
-    g_prec c = false /\ g_binary c = true /\ g_nobool c = true /\ printed_cond c = Some c' /\
-    evalc r std_fi (sem c) = Some false /\ evalc r std_fi c' = Some true.
-Proof.
-  exists (SAnd (gt0 sC) (SOr (gt0 sA) (gt0 sB) SNil) SNil),
-         (COr (CAnd (CRel OGt (Sym sC) (Num 0)) (CRel OGt (Sym sA) (Num 0))) (CRel OGt (Sym sB) (Num 0))),
-         (env_of [(sA, (-1)%Q); (sB, 1%Q); (sC, (-1)%Q)]).
-  repeat split; vm_compute; reflexivity.
-Qed.
+(* fix 5cd6b91: And(A > 0, B > 0, C > 0) is printed with all three operands (formerly 'A.GT.0.AND.B.GT.0') *)
+Example cond_nary_fixed :
+  printed_cond (SAnd (gt0 sA) (gt0 sB) (SCons (gt0 sC) SNil)) =
+  Some (CAnd (CRel OGt (Sym sA) (Num 0)) (CAnd (CRel OGt (Sym sB) (Num 0)) (CRel OGt (Sym sC) (Num 0)))) /\
+  evalc (env_of [(sA, 1%Q); (sB, 1%Q); (sC, (-1)%Q)]) std_fi
+        (CAnd (CRel OGt (Sym sA) (Num 0)) (CAnd (CRel OGt (Sym sB) (Num 0)) (CRel OGt (Sym sC) (Num 0)))) = Some false.
+Proof. split; vm_compute; reflexivity. Qed.
 
-(* expressions NMTranPrinter cannot print: the model returns None exactly there *)
-Theorem print_refuted_fn2 :
-  exists e : expr, g_no_fn2 e = false /\ g_no_invfn e = true /\ print_stmt [] sX e = None.
-Proof. exists (Fn2 8%positive (Sym sA) (Num 2)). repeat split; vm_compute; reflexivity. Qed.
-Theorem print_refuted_invfn :
-  exists e : expr, g_no_invfn e = false /\ g_no_fn2 e = true /\ print_stmt [] sX e = None.
-Proof. exists (Fn2 5%positive (Fn1 2%positive (Sym sA)) (Num (-1))). repeat split; vm_compute; reflexivity. Qed.
+(* fix 5cd6b91: And(C > 0, Or(A > 0, B > 0)) is printed 'C.GT.0.AND.(A.GT.0.OR.B.GT.0)' *)
+Example cond_prec_fixed :
+  printed_cond (SAnd (gt0 sC) (SOr (gt0 sA) (gt0 sB) SNil) SNil) =
+  Some (CAnd (CRel OGt (Sym sC) (Num 0)) (COr (CRel OGt (Sym sA) (Num 0)) (CRel OGt (Sym sB) (Num 0)))).
+Proof. vm_compute. reflexivity. Qed.
+
+(* fixes 08b5390 / 09fcba7: Mod(A, 2) and 1/log(A) are printed as plain assignments *)
+Example print_fn2_fixed :
+  print_stmt [] sX (Fn2 8%positive (Sym sA) (Num 2)) = Some [NS (SAssign sX (Fn2 8%positive (Sym sA) (Num 2)))].
+Proof. vm_compute. reflexivity. Qed.
+Example print_invfn_fixed :
+  print_stmt [] sX (Fn2 5%positive (Fn1 2%positive (Sym sA)) (Num (-1))) =
+  Some [NS (SAssign sX (Fn2 5%positive (Fn1 2%positive (Sym sA)) (Num (-1))))].
+Proof. vm_compute. reflexivity. Qed.
